@@ -30,7 +30,8 @@ RULE += (
     "from a task driven by asyncio. Every second cell makes its replacements RETURN a future object "
     "(ConstFuture / lazy Future), which every convention must pass on untouched and uncomputed. Replacement "
     "kind asynq_fn (an @asynq() generator function given as new) is held to the statement's four conventions. "
-    "Calls pass keywords named fn, mock_fn and args besides y."
+    "Calls pass keywords named fn, mock_fn and args besides y. In sequential compositions of callable-object "
+    "replacements the second fake is a copy.copy of the first."
 )
 ASSUMPTIONS = ["unittest.mock itself is trusted"]
 UNIT_TIMEOUT = {"quick": 200, "thorough": 600}
